@@ -365,7 +365,8 @@ class C13(IRCheck):
     pid = "C13"
     level_text, level_note = IR_LEVEL, IR_NOTE
     rule = ("cases: Possibilities(e) on seeded random DAGs with up to 4 (nested) conditionals, conditionals under "
-            "binary operands, in load addresses, in conditions and in branches; under 6 environments the value of e "
+            "binary operands, in load addresses, in conditions and in branches, plus operations whose two operands are "
+            "conditionals on the same comparison with further conditionals in their branches; under 6 environments the value of e "
             "must equal the value of one alternative, every alternative has e's width and no conditional; "
             "non-trivial = at least two alternatives; distinct by input DAG")
     assumptions = ["6 environments per expression", "memory is a total function of the address"]
@@ -387,6 +388,33 @@ class C13(IRCheck):
             if nless == 0 and rng.random() < 0.9:
                 continue
             envs = make_envs(rng, t.regs(), t.mems(), 6)
+            gs.append([case("q%d" % i, "poss", t, root, envs)])
+            i += 1
+        # correlated conditionals: both operands of an operation are conditionals on the SAME comparison (or on one that
+        # only looks the same) whose branches contain further, different conditionals - the alternatives must still
+        # cover every combination that can occur (thresholds in the middle of the value range, so that random
+        # valuations take every combination of branches)
+        for j in range(150 if tier == "quick" else 2000):
+            t = Table()
+            w = rng.choice([1, 1, 2, 4])
+            mid = t.const([0] * (w - 1) + [0x80])
+            r = [t.reg("r%d" % q, w) for q in range(1, 6)]
+
+            def leaf():
+                return t.constn(rng.randrange(1, 1 << (8 * w)), w) if rng.random() < 0.7 else rng.choice(r)
+
+            def branchy(depth=0):
+                if depth < 2 and rng.random() < 0.65:
+                    return t.less(rng.choice(r[1:]), mid, branchy(depth + 1), leaf(), w)
+                return leaf()
+            a, b = r[0], mid
+            e1 = t.less(a, b, branchy(), branchy(), w)
+            a2, b2 = (a, b) if rng.random() < 0.7 else rng.choice([(b, a), (r[1], mid), (a, t.const([0] * (w - 1) + [0x40]))])
+            e2 = t.less(a2, b2, branchy(), branchy(), w)
+            root = t.bin(rng.choice([1, 2, 5, 6]), e1, e2, w)
+            if sum(1 for x in t.nodes if x["k"] == "l") > 6:
+                continue
+            envs = make_envs(rng, t.regs(), t.mems(), 10)
             gs.append([case("q%d" % i, "poss", t, root, envs)])
             i += 1
         return gs
